@@ -524,6 +524,7 @@ impl World for ReteWorld {
                 "fire.complete demands a firing of a no-loop rule that has not fired since the last reset when an activation of it is certainly pending: the rule has never fired on this engine, or the client inserted/updated a satisfying fact after the most recent fire_all; whether activations consumed before a reset come back by themselves is left open; a second firing between resets is a violation".into(),
                 "the matched fact's contents 'at the moment of firing' are read from the handle-prefixed view the engine hands to the action, cross-checked against the client's last write when that is certain".into(),
             ],
+            hang_is_a_verdict: true,
             required_probes: vec![
                 "probe.update_invalidates_a_pending_activation",
                 "probe.client_retract",
